@@ -1484,9 +1484,11 @@ def gamma_taylor_coefficients(inprec):
                 gamma_taylor_cache[prec] = coeffs
             return coeffs, prec
 
-    # Cache at a higher precision (large case)
+    # Cache at a higher precision (large case); the cached list must then
+    # hold enough coefficients for every precision it will be reused at
     if prec > 1000:
         prec = int(prec * 1.2)
+        N = int(prec**0.787 + 2)
 
     wp = prec + 20
     A = [0] * N
